@@ -203,6 +203,9 @@ def in_domain(text):
     return not any(lit in text for lit in ("NaN", "Infinity"))
 
 
+FAIL_KINDS = ["own", "noargs", "nonstring-arg", "protocol-error-text", "protocol-error-pair", "transport-error", "app-error",
+              "unicode-error", "bytes-arg"]
+
 # ---------------------------------------------------------------------------
 
 
@@ -217,8 +220,33 @@ class C02Run(object):
         class Boom(Exception):
             pass
 
+        jc = self.jc
+        kind = self.p.get("fail_kind", 0) % len(FAIL_KINDS)
+        self.s.probe("fail_kind_" + FAIL_KINDS[kind])
+
         def fail(*a, **k):
-            raise Boom("failure é")
+            # what a registered callable raises: its own exception, a built-in one, or an error of this very
+            # library relayed from a call the method made to another server
+            name = FAIL_KINDS[kind]
+            if name == "own":
+                raise Boom("failure é")
+            if name == "noargs":
+                raise ValueError()
+            if name == "nonstring-arg":
+                raise KeyError(7)
+            if name == "protocol-error-text":
+                raise jc.ProtocolError("relayed failure")
+            if name == "protocol-error-pair":
+                raise jc.ProtocolError((-32000, "relayed failure"))
+            if name == "transport-error":
+                raise jc.TransportError("http://upstream/", 503, "Service Unavailable", "upstream is down")
+            if name == "app-error":
+                raise jc.AppError((-5, "application error", {"detail": [1, 2]}))
+            if name == "unicode-error":
+                b"\xff".decode("utf-8")
+            if name == "bytes-arg":
+                raise OSError(b"\xff\xfe raw bytes")
+            raise Boom("failure")
 
         if self.p.get("dispatch") == "instance":
             class Service(object):
@@ -378,7 +406,7 @@ class C02Scenario(object):
             for i in range(0, len(dm), self.BATCH):
                 server = ["plain", "dispatcher", "pooled", "dispatcher"][k % 4]
                 self.enumerated.append({"server": server, "version": [2.0, 1.0][(k // 4) % 2], "jsonclass": (k // 8) % 2 == 0,
-                                        "dispatch": "instance" if k % 5 == 4 else "default",
+                                        "dispatch": "instance" if k % 5 == 4 else "default", "fail_kind": k % 9 if k % 2 else 0,
                                         "base": base, "damage": dm[i:i + self.BATCH]})
                 k += 1
         self.must_cover = len(self.enumerated)
@@ -412,7 +440,7 @@ class C02Scenario(object):
         rng.shuffle(dm)
         return {"server": rng.choice(["plain", "pooled", "dispatcher"]), "version": rng.choice([2.0, 1.0]),
                 "jsonclass": rng.random() < 0.7, "dispatch": rng.choice(["default", "default", "instance"]),
-                "base": base, "damage": dm[:self.BATCH]}
+                "fail_kind": rng.choice([0, 0] + list(range(9))), "base": base, "damage": dm[:self.BATCH]}
 
     def run(self, program, decider, chooser=None):
         s = core.Sched(decider, step_cap=600000, horizon=8192.0, chooser=chooser)
